@@ -251,18 +251,28 @@ func TestVerif_C02_Dense(t *testing.T) {
 	}
 }
 
+// c03Line: a line of exactly n bytes including its newline, containing "abc".
+func c03Line(n int) string { return "abc" + strings.Repeat("y", n-4) + "\n" }
+
 // C03: line-layout classes (no trailing newline, only newlines, empty lines, CRLF, long line,
 // multi-byte runes before the match), all context sizes, both modes.
 func c03Corpus(rng *rand.Rand, id int) *corpus.Corpus {
 	c := &corpus.Corpus{ID: id}
 	c.Repos = append(c.Repos, corpus.Repo{Name: "repo/g", ID: 41, Branches: []string{"HEAD"}, Shard: 0})
 	lines := []string{"", "a", "ab", "abc", "é中abc", "😀a😀", "aaa aaa", "x", "abcabc", "  abc  ", "ßabcß", "b", "a\r", "abc\r", strings.Repeat("xy", 60) + "abc" + strings.Repeat("é", 30)}
-	fixed := []string{"\n\n\n", "a", "abc", "abc\n", "\nabc", "\n\nabc\n\n", "abc\nabc", "a\nb\nc\nabc\nd\ne\nf\nabc\ng", "abc\r\nabc\r\n"}
+	fixed := []string{"\n\n\n", "a", "abc", "abc\n", "\nabc", "\n\nabc\n\n", "abc\nabc", "a\nb\nc\nabc\nd\ne\nf\nabc\ng", "abc\r\nabc\r\n",
+		// lines whose length (with the newline) sits at the boundaries of the newline table's varint deltas
+		"abc\n" + c03Line(127) + c03Line(128) + "abc\n" + c03Line(129) + "abc",
+		c03Line(128) + "abc\nabc\n" + c03Line(128) + c03Line(128) + "x abc\n",
+		c03Line(256) + "abc\n" + c03Line(255) + "abc\n\nabc"}
 	nd := 3 + rng.Intn(3)
 	for k := 0; k < nd; k++ {
 		var s string
-		if rng.Intn(3) == 0 {
+		if rng.Intn(3) == 0 || (k == 0 && id%3 == 0) {
 			s = fixed[rng.Intn(len(fixed))]
+			if k == 0 && id%3 == 0 {
+				s = fixed[len(fixed)-1-(id/3)%3]
+			}
 		} else {
 			n := 1 + rng.Intn(12)
 			parts := make([]string, n)
